@@ -109,6 +109,48 @@ void w_set_ctx_from_opts(int show_harmless, int show_harmful, int show_redundant
   out[0] = ctxt.get_allowed_category(); out[1] = ctxt.show_redundant_changes(); out[2] = ctxt.show_leaf_changes_only();
 }
 
+// C12: two option sets that agree on everything except the presentation options.  out[k] = 1 iff
+// verdict-relevant context field k is the same in both contexts; out2[k] = the presentation field k
+// of the FIRST context follows its option (wiring is not lost)
+void w_presentation_opts(unsigned verdict_bits, unsigned pres1, unsigned pres2, int n_suppr_paths, int* same, int* wired)
+{
+  options o1, o2;
+  options* os[2]; os[0] = &o1; os[1] = &o2;
+  for (int k = 0; k < 2; ++k)
+    {
+      options& o = *os[k];
+      o.leaf_changes_only = (verdict_bits >> 0) & 1; o.show_stats_only = (verdict_bits >> 1) & 1;
+      o.show_all_fns = (verdict_bits >> 2) & 1; o.show_deleted_fns = (verdict_bits >> 3) & 1; o.show_changed_fns = (verdict_bits >> 4) & 1;
+      o.show_added_fns = (verdict_bits >> 5) & 1; o.show_all_vars = (verdict_bits >> 6) & 1; o.show_deleted_vars = (verdict_bits >> 7) & 1;
+      o.show_changed_vars = (verdict_bits >> 8) & 1; o.show_added_vars = (verdict_bits >> 9) & 1; o.ignore_soname = (verdict_bits >> 10) & 1;
+      o.show_redundant_changes = (verdict_bits >> 11) & 1; o.show_symbols_not_referenced_by_debug_info = (verdict_bits >> 12) & 1;
+      o.show_added_syms = (verdict_bits >> 13) & 1; o.show_all_types = (verdict_bits >> 14) & 1; o.show_impacted_interfaces = (verdict_bits >> 15) & 1;
+      o.show_harmless_changes = (verdict_bits >> 16) & 1; o.show_harmful_changes = (verdict_bits >> 17) & 1; o.no_default_supprs = (verdict_bits >> 18) & 1;
+      for (int i = 0; i < n_suppr_paths; ++i) o.suppression_paths.push_back(string("s"));
+      unsigned pres = k == 0 ? pres1 : pres2;
+      // the presentation options of the property statement
+      o.show_locs = (pres >> 0) & 1; o.show_hexadecimal_values = (pres >> 1) & 1; o.show_offsets_sizes_in_bits = (pres >> 2) & 1;
+      o.show_linkage_names = (pres >> 3) & 1; o.show_relative_offset_changes = (pres >> 4) & 1;
+    }
+  diff_context c1, c2;
+  set_diff_context_from_opts(&c1, o1);
+  set_diff_context_from_opts(&c2, o2);
+  abigail::comparison::diff_context::priv& a = *c1.priv_; abigail::comparison::diff_context::priv& b = *c2.priv_;
+  same[0] = a.allowed_category_ == b.allowed_category_;
+  same[1] = a.leaf_changes_only_ == b.leaf_changes_only_;
+  same[2] = a.show_stats_only_ == b.show_stats_only_;
+  same[3] = a.show_soname_change_ == b.show_soname_change_ && a.show_architecture_change_ == b.show_architecture_change_;
+  same[4] = a.show_deleted_fns_ == b.show_deleted_fns_ && a.show_changed_fns_ == b.show_changed_fns_ && a.show_added_fns_ == b.show_added_fns_;
+  same[5] = a.show_deleted_vars_ == b.show_deleted_vars_ && a.show_changed_vars_ == b.show_changed_vars_ && a.show_added_vars_ == b.show_added_vars_;
+  same[6] = a.show_redundant_changes_ == b.show_redundant_changes_;
+  same[7] = a.show_syms_unreferenced_by_di_ == b.show_syms_unreferenced_by_di_ && a.show_added_syms_unreferenced_by_di_ == b.show_added_syms_unreferenced_by_di_;
+  same[8] = a.show_unreachable_types_ == b.show_unreachable_types_ && a.show_impacted_interfaces_ == b.show_impacted_interfaces_;
+  same[9] = c1.s_.n_ == c2.s_.n_;
+  wired[0] = a.show_locs_ == (bool) (pres1 & 1); wired[1] = a.hex_values_ == (bool) ((pres1 >> 1) & 1);
+  wired[2] = a.show_offsets_sizes_in_bits_ == (bool) ((pres1 >> 2) & 1); wired[3] = a.show_linkage_names_ == (bool) ((pres1 >> 3) & 1);
+  wired[4] = a.show_relative_offset_changes_ == (bool) ((pres1 >> 4) & 1);
+}
+
 // the pipeline abidiff runs for one node: context from options, then the filtering decision
 int w_node_filtered_under_opts(int show_harmless, int show_harmful, int show_redundant, int leaf_only,
 			       unsigned category, int has_canonical, unsigned canonical_category)
